@@ -91,6 +91,20 @@ def make_cases(rng, tier):
         cs.append((g.price, ops))
     cs += deep_histories(rng, 8 if tier == "quick" else 200, rebuild=True)
     cs += deep_histories(rng, 2 * len(lvl.VIAS) if tier == "quick" else 120, rebuild=True, sizes=[257, 258, 300], mixed=True)
+    # reads (snapshot / package / JSON / text) taken BEFORE amendments that compensate each other (one order down by d, another
+    # up by d: every total and every counter is back where it was), then a rebuild through every path: a cache keyed on
+    # aggregates or statistics serves the old content
+    for i in range(60 if tier == "quick" else 1500):
+        a, b, d = rng.randint(5, 40), rng.randint(1, 30), rng.randint(1, 4)
+        kinds = [rng.choice("SPIR"), rng.choice("SPIR")]
+        ops = ["ADD " + gen.order(kinds[0], oid="u1", price=100, side="S", ts=10, tif="GTC", vis=a, hid=7 if kinds[0] in "IR" else 0, thr=0, amt=None),
+               "ADD " + gen.order(kinds[1], oid="l2", price=100, side="B", ts=11, tif="GTC", vis=b, hid=0, thr=0, amt=None)]
+        if rng.random() < 0.5:
+            ops.append("ADD " + gen.order("S", oid="u3", price=100, side="S", ts=12, tif="GTC", vis=9))
+        ops += ["READ " + rng.choice(["pkg", "snap", "json", "display"]), "SNAP"]
+        ops += ["UPD UQ:u1:%d" % (a - d), "UPD UQ:l2:%d" % (b + d)]
+        ops += ["READ " + rng.choice(["pkg", "snap"]), "REBUILD " + lvl.VIAS[i % len(lvl.VIAS)], "SNAP", "MATCH 3 u7000", "REBUILD " + rng.choice(lvl.VIAS)]
+        cs.append((100, ops))
     return cs
 
 
